@@ -108,6 +108,33 @@ def analyse_unit(unit, repo, scratch, tier, seed, cfg):
         res["status"] = "undecided"; res["undecided"].append("extractor crashed: %r" % e); return res
     gen = os.path.join(scratch, unit + ".rs")
     open(gen, "w").write(text)
+    # Constants the changed code newly refers to (a refactor that introduces `const LIMIT: usize = ...`) are extracted
+    # verbatim on demand: a quick front-end pass reports `cannot find value `NAME``; if `const NAME` exists in a file this
+    # unit extracts from, its text is appended (recorded as auto-extracted) and the unit is generated again.
+    try:
+        for _round in range(3):
+            p0 = subprocess.run(["verus", gen, "--no-verify", "--error-format=json"], capture_output=True, text=True, timeout=300, cwd=scratch)
+            missing = set(re.findall(r"cannot find value `([A-Z][A-Z0-9_]*)` in this scope", p0.stderr))
+            if not missing: break
+            added = []
+            files = sorted(set(it["file"] for it in meta["items"]))
+            for name in sorted(missing):
+                for f in files:
+                    try:
+                        src_txt = open(os.path.join(repo, f)).read()
+                    except Exception:
+                        continue
+                    m = re.search(r"^[ \t]*(?:pub(?:\([a-z]+\))?\s+)?const\s+%s\s*:[^;]*;" % re.escape(name), src_txt, re.M)
+                    if m:
+                        added.append("// auto-extracted constant from %s (newly referenced by the code under test)\n%s" % (f, m.group(0).strip()))
+                        res["notes"].append("auto-extracted const %s from %s" % (name, f)); break
+            if not added: break
+            k = text.rfind("} // verus!")
+            if k < 0: break
+            text = text[:k] + "\n".join(added) + "\n" + text[k:]
+            open(gen, "w").write(text)
+    except Exception as e:
+        res["notes"].append("const auto-extraction skipped: %r" % e)
     fns = extract.fn_table(text)
     res["items"] = meta["items"]
     res["gen_sha256"] = hashlib.sha256(text.encode()).hexdigest()
